@@ -49,7 +49,6 @@ class Event(Node):
 class If(Node):
     def __init__(self, cond, a, b):
         self.cond, self.a, self.b = cond, a, b
-        self.after = None
 
 
 class Region(Node):
@@ -141,6 +140,138 @@ def _intconst(v):
     return None
 
 
+def _known_int(v):
+    return isinstance(v, tuple) and v and v[0] == 'pure' and v[1] in ('len', 'ord', 'oct2int')
+
+
+def _boolish(v):
+    if not isinstance(v, tuple) or not v:
+        return False
+    if v[0] == 'cmp':
+        return True
+    if v[0] == 'not':
+        return True
+    if v[0] == 'pure' and v[1] in ('isinstance', 'issubclass', 'bool', 'callable', 'hasattr'):
+        return True
+    return False
+
+
+def _truthy_const(v):
+    if isinstance(v, tuple) and v and v[0] == 'const':
+        try:
+            return bool(ast.literal_eval(v[1]))
+        except Exception:
+            return False
+    return False
+
+
+_LEAVES = ('param', 'glob', 'ev', 'lv', 'after', 'tv', 'item', 'excobj', 'import', 'unpack_root')
+
+
+def roots(v, acc=None, memo=None):
+    """Leaves a value is built from: the objects a heap read of it looks at."""
+    if acc is None:
+        acc, memo = set(), set()
+    if not isinstance(v, tuple) or not v or id(v) in memo:
+        return acc
+    memo.add(id(v))
+    t = v[0]
+    if t in ('param', 'glob'):
+        acc.add(v)
+        return acc
+    if t == 'ev':
+        acc.add(('ev', id(v[1])))
+        return acc
+    if t in ('lv', 'after', 'tv'):
+        acc.add((t, id(v[1]), v[2]))
+        return acc
+    if t == 'item':
+        acc.add(('item', id(v[1])))
+        roots(v[1].head, acc, memo)      # an item belongs to what is iterated
+        return acc
+    if t == 'excobj':
+        acc.add(('excobj', id(v[1]), v[2]))
+        return acc
+    if t == 'ver':
+        return acc
+    for x in v[1:] if isinstance(t, str) else v:
+        if isinstance(x, tuple):
+            roots(x, acc, memo)
+    return acc
+
+
+def version_in(hist, rts):
+    """Version of a heap read of something built from the roots `rts`: the last event that may have changed it."""
+    for token, touched in reversed(hist):
+        if touched is None or (touched & rts):
+            return token
+    return hist[0][0]
+
+
+def rebase(v, hf, ht, memo=None):
+    """A value whose heap reads are current in history hf, re-read in history ht (same reads, versions of ht); reads
+    that were not current in hf (older values) stay what they are."""
+    if memo is None:
+        memo = {}
+    if not isinstance(v, tuple) or not v:
+        return v
+    k = id(v)
+    if k in memo:
+        return memo[k][1]
+    t = v[0]
+    if t in ('attr', 'sub', 'pure', 'comp') and isinstance(v[-1], tuple) and v[-1] and v[-1][0] == 'ver':
+        kids = tuple(rebase(x, hf, ht, memo) for x in v[1:-1])
+        old_kids = v[1:-1]
+        r0 = set()
+        for x in old_kids:
+            roots(x, r0, set())
+        if v[-1] == version_in(hf, r0):
+            r1 = set()
+            for x in kids:
+                roots(x, r1, set())
+            r = (t,) + kids + (version_in(ht, r1),)
+        else:
+            r = (t,) + kids + (v[-1],)
+    elif t in ('ev', 'ver', 'const', 'glob', 'param', 'lv', 'after', 'tv', 'item', 'excobj'):
+        r = v
+    else:
+        r = tuple(rebase(x, hf, ht, memo) if isinstance(x, tuple) else x for x in v)
+    if r == v:
+        r = v
+    memo[k] = (v, r)
+    return r
+
+
+def mkphi(c, p, q):
+    """phi(c, phi(c, a, b), d) = phi(c, a, d): the same condition (same reads, same versions) decides both."""
+    if isinstance(p, tuple) and p and p[0] == 'phi' and p[1] == c:
+        p = p[2]
+    if isinstance(q, tuple) and q and q[0] == 'phi' and q[1] == c:
+        q = q[3]
+    if p == q:
+        return p
+    return ('phi', c, p, q)
+
+
+def fold(op, l, r):
+    """x + 1 - 1 -> x: integer literals added to / subtracted from the same term are combined."""
+    if op in ('Add', 'Sub'):
+        k = _intconst(r)
+        if k is not None:
+            if op == 'Sub':
+                k = -k
+            if l[0] == 'bin' and l[1] in ('Add', 'Sub') and _intconst(l[3]) is not None and _intconst(l[2]) is None:
+                k2 = _intconst(l[3])
+                k += k2 if l[1] == 'Add' else -k2
+                l = l[2]
+            if k == 0 and _intconst(l) is None and l[0] in ('bin', 'after', 'lv', 'pure'):
+                return l
+            if _intconst(l) is not None:
+                return ('const', repr(_intconst(l) + k))
+            return ('bin', 'Add', l, ('const', repr(k))) if k >= 0 else ('bin', 'Sub', l, ('const', repr(-k)))
+    return ('bin', op, l, r)
+
+
 def canon_cond(v):
     """-> (value, negated)"""
     if not isinstance(v, tuple):
@@ -155,6 +286,13 @@ def canon_cond(v):
             op, neg = _NEGCMP[op], True
         if op in _FLIPCMP:
             op, a, b = _FLIPCMP[op], b, a
+        if op in ('in',) and b[0] == 'tuple' and len(b) > 1 and all(x[0] == 'const' for x in b[1:]):
+            # x in (c1, c2)  ==  x == c1 or x == c2
+            c, n = canon_cond(('or',) + tuple(('cmp', '==', a, x) for x in b[1:]))
+            return c, (n != neg)
+        if op == '<=' and _intconst(a) is None and _intconst(b) is None and (_known_int(a) or _known_int(b)):
+            # numbers are totally ordered:  a <= b  ==  not (b < a)
+            return ('cmp', '<', b, a), not neg
         if op in ('<', '<='):
             ka, kb = _intconst(a), _intconst(b)
             if kb is not None and ka is None:
@@ -191,16 +329,22 @@ def cond_value(c, neg):
 class State(object):
     def __init__(self, env, ver):
         self.env = env
-        self.ver = ver
+        self.hist = [(ver, None)]     # (version token, roots the event may have changed; None = anything)
         self.in_try = 0
         self.handler_exc = None
         self.try_reads = frozenset()
+        self.known = {}        # canonical condition value -> truth, on the path that leads here
+
+    def barrier(self, token):
+        self.hist.append((token, None))
 
     def copy(self):
-        s = State(dict(self.env), self.ver)
+        s = State(dict(self.env), None)
+        s.hist = list(self.hist)
         s.in_try = self.in_try
         s.handler_exc = self.handler_exc
         s.try_reads = self.try_reads
+        s.known = dict(self.known)
         return s
 
 
@@ -276,8 +420,32 @@ class Exec(object):
 
     # ---------------------------------------------------------------------------------------------- expressions
 
+    def ev_cond(self, e, st, out):
+        """A test (if / while / conditional expression): and / or keep their short-circuit form for the guard algebra."""
+        self._cond_ctx = True
+        try:
+            return self.ev(e, st, out)
+        finally:
+            self._cond_ctx = False
+
     def ev(self, e, st, out):
         """Evaluate expression e in state st; events are appended to out.  Returns the value."""
+        cond_ctx, self._cond_ctx = getattr(self, '_cond_ctx', False), False
+        if cond_ctx and isinstance(e, ast.BoolOp):
+            vals = [self.ev_cond(e.values[0], st, out)]
+            for x in e.values[1:]:
+                inner = []
+                s2 = st.copy()
+                self._cond_ctx = True
+                v = self.ev(x, s2, inner)
+                self._cond_ctx = False
+                if inner:
+                    st.hist.extend(s2.hist[len(st.hist):])
+                    v = ('seq', tuple(inner), v)
+                vals.append(v)
+            return ('and' if isinstance(e.op, ast.And) else 'or',) + tuple(vals)
+        if cond_ctx and isinstance(e, ast.UnaryOp) and isinstance(e.op, ast.Not):
+            return ('not', self.ev_cond(e.operand, st, out))
         if isinstance(e, ast.Constant):
             return ('const', repr(e.value))
         if isinstance(e, ast.Name):
@@ -289,14 +457,14 @@ class Exec(object):
             return ('glob', e.id)
         if isinstance(e, ast.Attribute):
             b = self.ev(e.value, st, out)
-            return ('attr', b, e.attr, st.ver)
+            return self.lift(lambda x: ('attr', x, e.attr, self.vfor(st, x)), b)
         if isinstance(e, ast.Subscript):
             b = self.ev(e.value, st, out)
             i = self.ev_slice(e.slice, st, out)
             k = _intconst(i)
             if b[0] == 'tuple' and k is not None and 0 <= k < len(b) - 1 and not any(x[0] == 'star' for x in b[1:]):
                 return b[1 + k]
-            return ('sub', b, i, st.ver)
+            return self.lift(lambda x, y: ('sub', x, y, self.vfor(st, x, y)), b, i)
         if isinstance(e, ast.Tuple) or isinstance(e, ast.List):
             items = []
             for x in e.elts:
@@ -329,7 +497,8 @@ class Exec(object):
         if isinstance(e, ast.BinOp):
             l = self.ev(e.left, st, out)
             r = self.ev(e.right, st, out)
-            return ('bin', type(e.op).__name__, l, r)
+            opn = type(e.op).__name__
+            return self.lift(lambda x, y: fold(opn, x, y), l, r)
         if isinstance(e, ast.Compare):
             l = self.ev(e.left, st, out)
             parts = []
@@ -337,7 +506,8 @@ class Exec(object):
                 if parts and self.has_event(c):
                     raise Unsupported('event in chained comparison')
                 r = self.ev(c, st, out)
-                parts.append(('cmp', _CMPOPS[type(op)], l, r))
+                cop = _CMPOPS[type(op)]
+                parts.append(self.lift(lambda x, y: ('cmp', cop, x, y), l, r) if len(e.ops) == 1 else ('cmp', cop, l, r))
                 l = r
             if len(parts) == 1:
                 return parts[0]
@@ -346,15 +516,32 @@ class Exec(object):
             vals = [self.ev(e.values[0], st, out)]
             for x in e.values[1:]:
                 vals.append(self.ev_guarded(x, st))
-            return ('and' if isinstance(e.op, ast.And) else 'or',) + tuple(vals)
+            r = ('and' if isinstance(e.op, ast.And) else 'or',) + tuple(vals)
+            if len(r) == 3 and _boolish(r[1]) and r[2][0] != 'seq':
+                # b and y = (y if b else False), b or y = (True if b else y)  for a genuine boolean b
+                cc, neg = canon_cond(r[1])
+                x_, y_ = (r[2], ('const', 'False')) if r[0] == 'and' else (('const', 'True'), r[2])
+                if neg:
+                    x_, y_ = y_, x_
+                return mkphi(cc, x_, y_)
+            if r[0] == 'or' and len(r) == 3 and r[1][0] == 'and' and len(r[1]) == 3 and _truthy_const(r[1][2]):
+                # `c and K or b` with a truthy constant K  ==  `K if c else b`
+                cc, neg = canon_cond(r[1][1])
+                a_, b_ = r[1][2], r[2]
+                if neg:
+                    a_, b_ = b_, a_
+                return ('phi', cc, a_, b_)
+            return r
         if isinstance(e, ast.IfExp):
-            c = self.ev(e.test, st, out)
+            c = self.ev_cond(e.test, st, out)
             a = self.ev_guarded(e.body, st)
             b = self.ev_guarded(e.orelse, st)
             cc, neg = canon_cond(c)
             if neg:
                 a, b = b, a
-            return ('phi', cc, a, b)
+            if cc in st.known:
+                return a if st.known[cc] else b
+            return mkphi(cc, a, b)
         if isinstance(e, ast.Call):
             return self.ev_call(e, st, out)
         if isinstance(e, ast.Yield):
@@ -400,14 +587,39 @@ class Exec(object):
         s2 = st.copy()
         v = self.ev(e, s2, inner)
         if inner:
-            st.ver = ('ver', inner[-1], 'g')   # afterwards: some event may have happened
+            st.hist.extend(s2.hist[len(st.hist):])     # afterwards: these events may have happened
             return ('seq', tuple(inner), v)
         return v
 
     def emit(self, evn, st, out):
         out.append(evn)
-        st.ver = ('ver', evn)
+        if evn.kind == 'yield':
+            evn.touched = None                 # the consumer runs: anything may change
+        else:
+            t = set()
+            for a in evn.args:
+                roots(a, t, set())
+            for k, a in evn.kw:
+                roots(a, t, set())
+            evn.touched = frozenset(t)
+        st.hist.append((('ver', evn), evn.touched))
         return ('ev', evn)
+
+    def vfor(self, st, *vals):
+        r = set()
+        for v in vals:
+            roots(v, r, set())
+        return version_in(st.hist, r)
+
+    def lift(self, build, *ops):
+        """A pure operation on a joined value is the join of the operation: op(phi(c, a, b)) = phi(c, op(a), op(b))."""
+        for i, o in enumerate(ops):
+            if isinstance(o, tuple) and o and o[0] == 'phi':
+                rest = ops[:i], ops[i + 1:]
+                x = self.lift(build, *(rest[0] + (o[2],) + rest[1]))
+                y = self.lift(build, *(rest[0] + (o[3],) + rest[1]))
+                return mkphi(o[1], x, y)
+        return build(*ops)
 
     def msg(self, e, st, out):
         """Message operand of raise / LOG: the text is dropped, the operands stay."""
@@ -437,10 +649,10 @@ class Exec(object):
         if getattr(st, 'handler_exc', None) is not None and not e.args and not e.keywords and ast.unparse(e.func) == 'sys.exc_info' \
                 and 'sys' not in self.locals:
             x = st.handler_exc
-            return ('tuple', ('pure', 'type', (x,), st.ver), x, ('attr', x, '__traceback__', st.ver))
+            return ('tuple', ('pure', 'type', (x,), self.vfor(st, x)), x, ('attr', x, '__traceback__', self.vfor(st, x)))
         if self.is_pure_call(e) and not e.keywords:
             args = tuple(self.ev(a, st, out) for a in e.args)
-            return ('pure', e.func.id, args, st.ver)
+            return ('pure', e.func.id, args, self.vfor(st, args))
         if isinstance(e.func, ast.Attribute):
             # the method looked up on the receiver: which function that is does not change while the caller runs
             f = ('meth', self.ev(e.func.value, st, out), e.func.attr)
@@ -493,7 +705,7 @@ class Exec(object):
             eventful = True    # a fresh object (list/set/dict/generator): it has an identity and a place
         if eventful:
             return self.emit(Event('comp', [('src', src)] + cap), st, out)
-        return ('comp', src, tuple(cap), st.ver)
+        return ('comp', src, tuple(cap), self.vfor(st, tuple(cap)))
 
     # ------------------------------------------------------------------------------------------------ statements
 
@@ -504,6 +716,10 @@ class Exec(object):
         while i < len(stmts):
             s = stmts[i]
             rest = stmts[i + 1:]
+            low = self.lower(s)
+            if low is not None:
+                stmts = stmts[:i] + low + rest
+                continue
             if isinstance(s, ast.If):
                 done = self.do_if(s, rest, st, seq)
                 if done:
@@ -515,6 +731,15 @@ class Exec(object):
                 #   every handler leaves           -> the else part is simply what comes next
                 #   the else part always leaves    -> the handlers that go on continue with the rest of the block
                 hs_end = all(_syn_ends(h.body) for h in s.handlers)
+                if not hs_end and not _syn_ends(s.orelse) and len(rest) == 1 and isinstance(rest[0], (ast.Continue, ast.Break, ast.Return)) \
+                        and (not isinstance(rest[0], ast.Return) or rest[0].value is None):
+                    # nothing but a bare terminator follows: it ends every way out of the statement
+                    hs = [h if _syn_ends(h.body) else ast.ExceptHandler(type=h.type, name=h.name,
+                                                                         body=[x for x in h.body if not isinstance(x, ast.Pass)] + rest)
+                          for h in s.handlers]
+                    t2 = ast.Try(body=s.body, handlers=hs, orelse=list(s.orelse) + rest, finalbody=[])
+                    stmts = stmts[:i] + [t2]
+                    continue
                 if hs_end:
                     t2 = ast.Try(body=s.body, handlers=s.handlers, orelse=[], finalbody=[])
                     stmts = stmts[:i] + [t2] + list(s.orelse) + rest
@@ -569,6 +794,60 @@ class Exec(object):
             return
         raise Unsupported('target %s' % type(target).__name__)
 
+    def find_ifexp(self, expr):
+        """First conditional expression with an event in one of its arms that is evaluated unconditionally and before any
+        other event of the expression (so that it can be computed by an `if` statement placed in front)."""
+        found = []
+
+        def rec(n):
+            # returns False to stop (an event was met, or the place is only conditionally evaluated)
+            if found:
+                return False
+            if isinstance(n, ast.IfExp):
+                if self.has_event(n.body) or self.has_event(n.orelse):
+                    if not self.has_event(n.test):
+                        found.append(n)
+                    return False
+                return rec(n.test) and not (self.has_event(n.body) or self.has_event(n.orelse))
+            if isinstance(n, ast.BoolOp):
+                if not rec(n.values[0]):
+                    return False
+                return not any(self.has_event(v) for v in n.values[1:])
+            if isinstance(n, (ast.Lambda, ast.ListComp, ast.SetComp, ast.DictComp, ast.GeneratorExp)):
+                return not self.has_event(n)
+            if isinstance(n, ast.Call):
+                for c in [n.func] + list(n.args) + [k.value for k in n.keywords]:
+                    if not rec(c):
+                        return False
+                return self.is_pure_call(n)
+            if isinstance(n, ast.Yield):
+                if n.value is not None and not rec(n.value):
+                    return False
+                return False
+            for c in ast.iter_child_nodes(n):
+                if isinstance(c, ast.expr) and not rec(c):
+                    return False
+            return True
+        rec(expr)
+        return found[0] if found else None
+
+    def lower(self, s):
+        """`x = f(a) if c else g(b)` -> `if c: t = f(a) else: t = g(b)`; `x = t` (also inside a larger expression)."""
+        if isinstance(s, (ast.Assign, ast.AugAssign, ast.Return, ast.Expr, ast.AnnAssign)) and getattr(s, 'value', None) is not None:
+            ie = self.find_ifexp(s.value)
+            if ie is not None:
+                self._tmp = getattr(self, '_tmp', 0) + 1
+                name = '$t%d' % self._tmp
+                self.locals.add(name)
+                pre = ast.If(test=ie.test,
+                             body=[ast.Assign(targets=[ast.Name(id=name, ctx=ast.Store())], value=ie.body)],
+                             orelse=[ast.Assign(targets=[ast.Name(id=name, ctx=ast.Store())], value=ie.orelse)])
+                ie.__class__ = ast.Name
+                ie.__dict__.clear()
+                ie.__dict__.update({'id': name, 'ctx': ast.Load()})
+                return [pre, s]
+        return None
+
     def stmt(self, s, st, seq):
         if isinstance(s, ast.Expr):
             if isinstance(s.value, ast.Constant):
@@ -593,17 +872,19 @@ class Exec(object):
             if isinstance(t, ast.Name):
                 cur = self.ev(ast.Name(id=t.id, ctx=ast.Load()), st, seq)
                 v = self.ev(s.value, st, seq)
-                k = 'bin' if (v[0] == 'const' or cur[0] == 'const') else 'ibin'
-                self.bind(t, (k, type(s.op).__name__, cur, v), st, seq)
+                if v[0] == 'const' or cur[0] == 'const':
+                    self.bind(t, fold(type(s.op).__name__, cur, v), st, seq)
+                else:
+                    self.bind(t, ('ibin', type(s.op).__name__, cur, v), st, seq)
             elif isinstance(t, ast.Attribute):
                 b = self.ev(t.value, st, seq)
-                cur = ('attr', b, t.attr, st.ver)
+                cur = ('attr', b, t.attr, self.vfor(st, b))
                 v = self.ev(s.value, st, seq)
                 self.emit(Event('setattr', [b, ('const', repr(t.attr)), ('ibin', type(s.op).__name__, cur, v)]), st, seq)
             elif isinstance(t, ast.Subscript):
                 b = self.ev(t.value, st, seq)
                 i = self.ev_slice(t.slice, st, seq)
-                cur = ('sub', b, i, st.ver)
+                cur = ('sub', b, i, self.vfor(st, b, i))
                 v = self.ev(s.value, st, seq)
                 self.emit(Event('setitem', [b, i, ('ibin', type(s.op).__name__, cur, v)]), st, seq)
             else:
@@ -692,7 +973,7 @@ class Exec(object):
             r.assigned = _stored_names(s.body + s.orelse)
         r.init = dict((v, st.env.get(v, ('unbound',))) for v in r.assigned)
         inner = st.copy()
-        inner.ver = ('ver', r, 'in')
+        inner.hist = [(('ver', r, 'in'), None)]
         for v in r.assigned:
             inner.env[v] = ('lv', r, v)
         self.regions.append(r)
@@ -700,7 +981,7 @@ class Exec(object):
         if isinstance(s, ast.For):
             self.bind(s.target, ('item', r), inner, body)
         else:
-            tv = self.ev(s.test, inner, body)
+            tv = self.ev_cond(s.test, inner, body)
             if tv != ('const', 'True'):
                 # while c: B   ==   loop: if not c: break; B
                 c, neg = canon_cond(tv)
@@ -708,7 +989,7 @@ class Exec(object):
         body.extend(self.block(list(s.body) + [ast.Continue()], inner))
         r.parts.append(('body', body))
         self.regions.pop()
-        st.ver = ('ver', r)
+        st.barrier(('ver', r))
         for v in r.assigned:
             st.env[v] = ('after', r, v)
         seq.append(r)
@@ -747,7 +1028,7 @@ class Exec(object):
             falls.append(bst)
         for k, h in enumerate(s.handlers):
             hst = entry.copy()
-            hst.ver = ('ver', r, 'h%d' % k)
+            hst.barrier(('ver', r, 'h%d' % k))
             for v in r.assigned:
                 hst.env[v] = ('tv', r, v)
             hseq = []
@@ -767,10 +1048,12 @@ class Exec(object):
         seq.append(r)
         if not falls:
             return
-        st.ver = ('ver', r)
         if len(falls) == 1:
             st.env = falls[0].env
+            st.hist = list(falls[0].hist)
+            st.barrier(('ver', r))
             return
+        st.barrier(('ver', r))
         # several ways to go on: the values differ by the way taken
         names = set()
         for f in falls:
@@ -788,7 +1071,7 @@ class Exec(object):
 
     def do_if(self, s, rest, st, seq, absorb=True):
         """Returns True when the rest of the block has been consumed."""
-        c0 = self.ev(s.test, st, seq)
+        c0 = self.ev_cond(s.test, st, seq)
         c, neg = canon_cond(c0)
         body, orelse = list(s.body), list(s.orelse)
         consumed = False
@@ -822,14 +1105,31 @@ class Exec(object):
             if not orelse or small_exit:
                 self.nested(list(items), body, orelse, st, seq)
                 return
+        if c in st.known:
+            # the same condition (same reads at the same versions) was decided on the way here
+            seq.extend(self.block(body if st.known[c] else orelse, st))
+            return
         sa, sb = st.copy(), st.copy()
+        sa.known[c] = True
+        sb.known[c] = False
         a = self.block(body, sa)
         b = self.block(orelse, sb)
         self.join(c, a, sa, b, sb, st, seq)
 
     def nested(self, items, body, orelse, st, seq):
         (c, neg) = items[0]
+        if c in st.known:
+            truth = st.known[c] != neg
+            if not truth:
+                seq.extend(self.block(orelse, st))
+            elif len(items) == 1:
+                seq.extend(self.block(body, st))
+            else:
+                self.nested(items[1:], body, orelse, st, seq)
+            return
         sa, sb = st.copy(), st.copy()
+        sa.known[c] = True
+        sb.known[c] = False
         if len(items) == 1:
             if neg:
                 a = self.block(orelse, sa)
@@ -852,82 +1152,94 @@ class Exec(object):
     def join(self, c, a, sa, b, sb, st, seq):
         """Append `if c: a else: b` in canonical form.  What both branches end with (the same kind of terminator, events
         of the same shape) is written once after the `if`, operands joined by phi; a branch that leaves becomes a guard."""
-        pre_ver = st.ver
+        pre = list(st.hist)
         ta_, tb_ = None, None
         if a and b and isinstance(a[-1], Term) and isinstance(b[-1], Term) and self.same_term(a[-1], b[-1]):
             ta_, tb_ = a.pop(), b.pop()
         ea, eb = ends(a), ends(b)
         if ta_ is None and (ea or eb):
             if ea:
-                n = If(c, a, [])
-                n.after = pre_ver
-                seq.append(n)
+                seq.append(If(c, a, []))
                 seq.extend(b)
-                st.env, st.ver = sb.env, sb.ver
+                st.env, st.hist, st.known = sb.env, sb.hist, sb.known
             else:
-                n = If(('not', c), b, [])
-                n.after = pre_ver
-                seq.append(n)
+                seq.append(If(('not', c), b, []))
                 seq.extend(a)
-                st.env, st.ver = sa.env, sa.ver
+                st.env, st.hist, st.known = sa.env, sa.hist, sa.known
             return
         if ea or eb:
             # a common terminator was taken off but one side still always leaves earlier: put it back, guard form
             a.append(ta_)
             b.append(tb_)
-            n = If(c, a, [])
-            n.after = pre_ver
-            seq.append(n)
+            seq.append(If(c, a, []))
             seq.extend(b)
-            st.env, st.ver = sb.env, sb.ver
+            st.env, st.hist, st.known = sb.env, sb.hist, sb.known
             return
         node = If(c, a, b)
         sunk = []
         while a and b and isinstance(a[-1], Event) and isinstance(b[-1], Event) and self.mergeable(a[-1], b[-1]):
             sunk.append((a.pop(), b.pop()))
         sunk.reverse()
-        # version at the end of what remains of each branch
-        va = self.ver_of(a[-1]) if a else pre_ver
-        vb = self.ver_of(b[-1]) if b else pre_ver
+        ha = [e for e in sa.hist if not any(e[0] == ('ver', x) for x, _ in sunk)]
+        hb = [e for e in sb.hist if not any(e[0] == ('ver', y) for _, y in sunk)]
+        extra = ha[len(pre):] + hb[len(pre):]
+        hj = list(pre)
         if a or b:
             seq.append(node)
-            jver = ('ver', node)
-        else:
-            jver = pre_ver
-        node.after = jver
-        ma, mb = {}, {}        # always applied: results / versions of events that were merged
-        ta, tb = {va: jver}, {vb: jver}   # tentative: "at the end of my branch" read as "at the join"
-        if va == jver:
-            ta = {}
-        if vb == jver:
-            tb = {}
-        cur = jver
+        if extra:
+            touched = None
+            if all(t is not None for _, t in extra):
+                touched = frozenset().union(*[t for _, t in extra]) if extra else frozenset()
+            hj.append((('ver', node), touched))
+        ma, mb = {}, {}        # results / versions of events that were merged
         for x, y in sunk:
-            args = [self.phi2(c, p, q, ma, mb, ta, tb) for p, q in zip(x.args, y.args)]
-            kw = [(k1, self.phi2(c, p, q, ma, mb, ta, tb)) for (k1, p), (k2, q) in zip(x.kw, y.kw)]
+            args = [self.phi2(c, p, q, ma, mb, ha, hb, hj) for p, q in zip(x.args, y.args)]
+            kw = [(k1, self.phi2(c, p, q, ma, mb, ha, hb, hj)) for (k1, p), (k2, q) in zip(x.kw, y.kw)]
             m = Event(x.kind, args, kw)
             seq.append(m)
             ma[('ev', x)] = ('ev', m)
             mb[('ev', y)] = ('ev', m)
             ma[('ver', x)] = ('ver', m)
             mb[('ver', y)] = ('ver', m)
-            cur = ('ver', m)
+            if x.kind == 'yield':
+                m.touched = None
+            else:
+                t = set()
+                for v in list(args) + [v for _, v in kw]:
+                    roots(v, t, set())
+                m.touched = frozenset(t)
+            ha = ha + [(('ver', m), m.touched)]
+            hb = hb + [(('ver', m), m.touched)]
+            hj = hj + [(('ver', m), m.touched)]
         if ta_ is not None:
             val = None
             if ta_.val is not None or tb_.val is not None:
-                val = self.phi2(c, ta_.val, tb_.val, ma, mb, ta, tb)
+                val = self.phi2(c, ta_.val, tb_.val, ma, mb, ha, hb, hj)
             state = None
             if ta_.state is not None:
                 state = []
                 for (r, dx), (_, dy) in zip(ta_.state, tb_.state):
-                    state.append((r, dict((v, self.phi2(c, dx[v], dy[v], ma, mb, ta, tb)) for v in dx)))
+                    state.append((r, dict((v, self.phi2(c, dx[v], dy[v], ma, mb, ha, hb, hj)) for v in dx)))
             seq.append(Term(ta_.kind, val, state))
             return
         env = {}
         for v in set(sa.env) | set(sb.env):
-            env[v] = self.phi2(c, sa.env.get(v, ('unbound',)), sb.env.get(v, ('unbound',)), ma, mb, ta, tb)
+            env[v] = self.phi2(c, sa.env.get(v, ('unbound',)), sb.env.get(v, ('unbound',)), ma, mb, ha, hb, hj)
         st.env = env
-        st.ver = cur
+        st.hist = hj
+
+    def phi2(self, c, p, q, ma, mb, ha, hb, hj):
+        if ma:
+            p = subst(p, ma)
+        if mb:
+            q = subst(q, mb)
+        if p == q:
+            return p
+        # a read that is current at the end of its branch is the same read made after the join
+        p2, q2 = rebase(p, ha, hj), rebase(q, hb, hj)
+        if p2 == q2:
+            return p2
+        return mkphi(c, p, q)
 
     def same_term(self, x, y):
         if x.kind != y.kind:
@@ -939,27 +1251,8 @@ class Exec(object):
             return x.val[0] == y.val[0]
         return True
 
-    def ver_of(self, node):
-        if isinstance(node, If):
-            return node.after
-        return ('ver', node)
-
-    def phi2(self, c, p, q, ma, mb, ta, tb):
-        if ma:
-            p = subst(p, ma)
-        if mb:
-            q = subst(q, mb)
-        if p == q:
-            return p
-        p2, q2 = subst(p, ta), subst(q, tb)
-        if p2 == q2:
-            return p2
-        return ('phi', c, p, q)
-
     def phi(self, c, p, q):
-        if p == q:
-            return p
-        return ('phi', c, p, q)
+        return mkphi(c, p, q)
 
     def mergeable(self, x, y):
         if x.kind != y.kind or len(x.args) != len(y.args) or [k for k, _ in x.kw] != [k for k, _ in y.kw]:
